@@ -262,6 +262,7 @@ theorem C03.frame (rule : Pump.Rule) (t : Topo) (s : Sys) (st : Teardown.Step) (
   | bwd wo => exact (step_evolves rule t s (.bwd wo) trivial).2 x hx
   | fwdEnd w r => exact (step_evolves rule t s (.fwdEnd w r) trivial).2 x hx
   | sinkAnswer k a => exact (step_evolves rule t s (.sinkAnswer k a) trivial).2 x hx
+  | bwdLate wo => exact (step_evolves rule t s (.bwdLate wo) trivial).2 x hx
   | down td => exact (step_evolves rule t s (.down td) trivial).2 x hx
 
 /-- Hence unaffected requesters keep the C01 guarantees: after any system history the writer
@@ -373,13 +374,13 @@ each of them completes the upstream row of the request it belongs to, so that th
 `wi` is handed its packet, is `C01.pending_backed_partial` / `C02.node_contract` (an answer of an
 open, linked reader with a request outstanding is credited to its oldest outstanding request),
 not re-proved for the relay model. -/
-theorem C03.teardown_releases_upstream_partial (t : Topo) (h : List Teardown.Step) (hs : RunNoSteal h)
+theorem C03.teardown_releases_upstream_partial (t : Topo) (ho : t.handOver = true) (h : List Teardown.Step) (hs : RunNoSteal h)
     (wo wi : WId) (r : RId) (hc : t.consumer wo = .node wi r) (hne : wo ≠ wi)
     (hd : ((Teardown.run .discard t {} h).comp wo).w.done = true) :
     ∃ sched : List Teardown.Step, (∀ st ∈ sched, st = .bwd wo ∨ st = .prim wo .pumpExit) ∧
       sched.length ≤ ((Teardown.run .discard t {} h).comp wo).p.buf.length + 2 ∧
       (Teardown.run .discard t (Teardown.run .discard t {} h) sched).reads wi r = [] :=
-  node_release t wo wi r hc hne _ _ ⟨h, hs, rfl⟩ hd (Nat.le_refl _)
+  node_release t ho wo wi r hc hne _ _ ⟨h, hs, rfl⟩ hd (Nat.le_refl _)
 
 /-- Non-vacuity, and the end-to-end effect on a concrete path: a node between a source writer (0)
 and a sink, two requests in flight behind the node, the node's out-writer (1) alone is closed and
@@ -409,7 +410,7 @@ once: the closed out-writer accepts nothing, the request is echoed) – and `wi`
 image of a C01 specification state satisfying C01's invariant, in which the rows that owe `r` an
 answer are exactly those requests (`OweOK`).  So no request the node had taken keeps the
 requester of `wi` waiting.  `_partial`: the two hypotheses (wiring, no foreign answers). -/
-theorem C03.teardown_releases_upstream_awaits_partial (t : Topo) (h : List Teardown.Step) (hs : RunNoSteal h)
+theorem C03.teardown_releases_upstream_awaits_partial (t : Topo) (ho : t.handOver = true) (h : List Teardown.Step) (hs : RunNoSteal h)
     (wo wi : WId) (r : RId) (hc : t.consumer wo = .node wi r) (hl : t.listener wi r = .node wo) (hne : wo ≠ wi)
     (hf : ∀ st ∈ h, stepNoForeign wi r st)
     (hd : ((Teardown.run .discard t {} h).comp wo).w.done = true) :
@@ -420,7 +421,7 @@ theorem C03.teardown_releases_upstream_awaits_partial (t : Topo) (h : List Teard
         (((Teardown.run .discard t (Teardown.run .discard t {} h) sched).comp wi).w.pend r).length =
           ((Teardown.run .discard t (Teardown.run .discard t {} h) sched).inbox wi r).length) ∧
       Backed ((Teardown.run .discard t (Teardown.run .discard t {} h) sched).comp wi) := by
-  obtain ⟨sched, h1, h2, h3⟩ := node_release t wo wi r hc hne _ _ ⟨h, hs, rfl⟩ hd (Nat.le_refl _)
+  obtain ⟨sched, h1, h2, h3⟩ := node_release t ho wo wi r hc hne _ _ ⟨h, hs, rfl⟩ hd (Nat.le_refl _)
   have hf' : ∀ st ∈ h ++ sched, stepNoForeign wi r st := by
     intro st hst
     rcases List.mem_append.1 hst with hst | hst
@@ -570,4 +571,40 @@ theorem C03.forward_end_is_final_nonvacuous :
     (Teardown.run .discard t {} h).reads 0 0 = [] ∧
     ((Teardown.run .discard t {} h).comp 0).accepted = 1 ∧
     ((Teardown.run .discard t {} h).comp 0).got = [.got Resp.dropped] := by
+  decide
+
+/-! ## The window between a writer's creation and the start of its backward loop -/
+
+/-- **The late listener finds its writer.**  A node's backward loop is a listener of the out-port:
+`OutPort.Open` starts it in its own goroutine and it obtains the writer with a second
+`Open(proc)` (`bwdLate` is that second `Open` happening only now).  With the code after `fix: a
+writer stays findable for its listeners until they have returned` (`handOver = true`) that step
+changes nothing, in any state – whatever teardown landed between the forward loop's `Open` and it
+(`OutPort.Close`, node close, writer close): the loop watches the writer the forward loop wrote
+to, so `C03.teardown_releases_upstream_partial` applies at every crash point inside the window
+too; and no backward loop ever watches another writer (`detached` stays false along every
+history). -/
+theorem C03.late_listener_finds_writer (rule : Pump.Rule) (t : Topo) (ho : t.handOver = true) :
+    (∀ s wo, (Teardown.step rule t s (.bwdLate wo)).1 = s) ∧
+    (∀ h w, (Teardown.run rule t {} h).detached w = false) := by
+  refine ⟨fun s wo => by simp [Teardown.step, ho], fun h w => ?_⟩
+  rw [run_detached rule t {} h ho]
+
+/-- The defect that was fixed, as a theorem about the code before it (`handOver = false`): a
+request is in flight behind a node, the node's out-port is closed before its backward listener
+has made its own `Open`; the listener then gets a brand-new writer (`bwdLate`): however the pump,
+the backward loop and the requester are scheduled afterwards, the node keeps the request
+waiting and the requester upstream – whose own writer was never closed – stays owed a response
+with nothing to receive. With the fix the same history releases it with `dropped`. -/
+theorem C03.late_listener_pinned_blocked :
+    let t (ho : Bool) : Topo := { consumer := fun w => if w = 1 then .node 0 0 else .requester,
+                                  listener := fun w _ => if w = 0 then .node 1 else .sink 0,
+                                  outPorts := [[0], [1]], handOver := ho }
+    let h : List Teardown.Step := [.prim 0 (.w (.link 0)), .prim 1 (.w (.link 0)), .prim 0 (.w (.write 7)), .fwd 0 0,
+      .down (.outPortClose 1), .bwdLate 1, .prim 1 .pumpExit, .bwd 1, .bwd 1, .prim 0 .pumpExit, .prim 0 .recv]
+    ((Teardown.run .discard (t false) {} h).comp 0).outstanding = 1 ∧
+    ((Teardown.run .discard (t false) {} h).comp 0).got = [] ∧
+    ((Teardown.run .discard (t false) {} h).comp 0).w.done = false ∧
+    (Teardown.run .discard (t false) {} h).reads 0 0 = [(7, none)] ∧
+    ((Teardown.run .discard (t true) {} h).comp 0).got = [.got Resp.dropped] := by
   decide
